@@ -23,7 +23,7 @@ RULE = ("scenario = MultiAntennaArray (1-5 antennas, delay vector all-zero / uns
 COMPONENTS = {"real": ["setigen.voltage.antenna.MultiAntennaArray / Antenna", "setigen.voltage.data_stream.DataStream / "
                        "BackgroundDataStream"], "stub": ["entropy seam (tripwire only)"]}
 ASSUMPTIONS = C10.ASSUMPTIONS
-PROBES = ["delays_omitted", "delays_all_zero", "delays_unsorted", "delays_repeated", "cache_carry_over",
+PROBES = ["noise_estimate_refreshed_mid_observation", "delays_omitted", "delays_all_zero", "delays_unsorted", "delays_repeated", "cache_carry_over",
           "reset_between_requests", "request_just_above_max_delay", "two_pols", "rejected_request"]
 
 
@@ -70,6 +70,10 @@ def generate(rng, tier):
         elif r < 0.74 and maxd > 0:
             # a request the array must reject (not larger than the largest delay): it must leave no trace
             ops.append({"op": "reject_get", "n": rng.randint(1, maxd)})
+        elif r < 0.77:
+            # a stream's noise estimate is refreshed in mid-observation (it draws samples, but restores the clock)
+            ops.append({"op": "update_noise", "which": rng.choice(["bg", "bg", "own"]), "pol": rng.randrange(2), "ant": rng.randrange(8),
+                        "m": rng.choice([1, 10, 100, 1000])})
         elif r < 0.8:
             ops.append({"op": "set_time", "t": rng.choice([0.0, 4.0, 100.5]) if dyadic else rng.choice([0.0, 7.3, 100.0])})
         elif r < 0.9:
@@ -233,6 +237,20 @@ def execute(sc, ctx):
             if gets_in_obs >= 2:
                 ctx.nontrivial = True
             ctx.check(not arr.start_obs, "clock", "C15/clock/start_obs_flag", "start_obs still set after a request")
+        elif op["op"] == "update_noise":
+            p = op["pol"] % pols
+            if op["which"] == "bg":
+                st, rf = bg_streams[p], bg_refs[p]
+            else:
+                a = op["ant"] % n_ant
+                st, rf = own_streams[a][p], own_refs[a][p]
+            before = (st.t_start, st.start_obs)
+            st.update_noise(op["m"])
+            rf.draw_noise(op["m"])
+            ctx.event("update_noise", float(st.noise_std))
+            ctx.hit("noise_estimate_refreshed_mid_observation" if not first else "noise_estimate_refreshed_before_observation")
+            ctx.check((st.t_start, st.start_obs) == before, "clock", "C15/clock/update_noise_moves_clock",
+                      lambda: "before %r after %r" % (before, (st.t_start, st.start_obs)))
         elif op["op"] == "reject_get":
             try:
                 arr.get_samples(op["n"])
